@@ -106,6 +106,8 @@ let consts : (string * string) list = [
   ("MaxCapabilitiesLength", nstr l_Capabilities);
   ("MaxErrorByteLength", nstr l_ErrMessage);
   ("CustomPayloadExtensionsLimit", nstr l_CustomPayload);
+  ("digest_Bellatrix", Util.hex_of_bytes (ub d_Bellatrix)); ("digest_Capella", Util.hex_of_bytes (ub d_Capella));
+  ("digest_Deneb", Util.hex_of_bytes (ub d_Deneb)); ("digest_Electra", Util.hex_of_bytes (ub d_Electra));
 ] @ Drv_c14_more.consts
 
 (* first field whose declared limit the value exceeds *)
@@ -117,12 +119,56 @@ let violated (t : codec) (names : string list) (fs : field list) : string option
     | true :: r -> go r ns (i + 1) in
   go bs names 0
 
+(* ---- beacon Forked* wrappers: the payload codec is the oracle field of the line *)
+let wrappers = [("ForkedBootstrap", WBootstrap); ("ForkedUpdate", WUpdate); ("ForkedFinality", WFinality);
+                ("ForkedOptimistic", WOptimistic); ("ForkedHistSummaries", WHistSummaries)]
+let drop4 l = match l with _ :: _ :: _ :: _ :: r -> r | _ -> []
+let take4 l = match l with a :: b' :: c :: d :: _ -> [a; b'; c; d] | _ -> l
+let forked_dec wname hex oracle impl (sent : (string * int * string) option) : string option * string list =
+  let w = List.assoc wname wrappers in
+  let data = Util.bytes_of_hex hex in
+  let rest = drop4 data in
+  let orc = List.map (fun s -> if s = "E" then None else if s = "=" then Some (b rest) else Some (b (Util.bytes_of_hex s)))
+      (String.split_on_char ',' oracle) in
+  let rel p = if ub p = rest then "=" else Util.hex_of_bytes (ub p) in
+  let m = match dec_Forked_oracle code_strict_forked_scope w orc (b data) with
+    | Ok ((d, k), p) -> Printf.sprintf "ok %s/%d/%s" (Util.hex_of_bytes (ub d)) (int_n k) (rel p)
+    | Err e -> Printf.sprintf "err %d" (int_n e) | Panic -> "panic" in
+  let sel = if List.length data >= 4 then fork_select w (b (take4 data)) else None in
+  let mons =
+    if starts impl "panic" then ["decoder-panics-" ^ wname ^ " " ^ impl]
+    else if starts impl "ok " then begin
+      (* the digest switch: an accepted input must carry a digest the wrapper knows, and the payload type it selects *)
+      let parts = String.split_on_char '/' (after impl 3) in
+      let ik = (match parts with [_; k; _] -> int_of_string k | _ -> -2) in
+      (match sel with
+       | None -> ["forked-unknown-digest-accepted-" ^ wname ^ " impl=" ^ (if String.length impl > 60 then String.sub impl 0 60 else impl)]
+       | Some k -> if int_n k <> ik then ["forked-wrong-payload-type-" ^ wname ^ Printf.sprintf " digest selects %d, implementation used %d" (int_n k) ik] else [])
+      @ (match parts with
+          | [_; _; p] when p <> "=" -> ["canonicity-trailing-bytes-" ^ wname ^ " payload re-encodes differently"]
+          | _ -> [])
+    end else
+      (* round trip: a value whose digest selects its own payload type must come back *)
+      (match sent, sel with
+       | Some (dg, k, _), Some ks when int_n ks = k && starts impl "err" &&
+           (match List.nth_opt orc k with Some (Some _) -> true | _ -> false) -> ["roundtrip-" ^ wname ^ " digest " ^ dg]
+       | _ -> []) in
+  (Some m, mons)
+
 let handle fields impl : string option * string list =
   match fields with
   | ["const"; name] ->
     (match List.assoc_opt name consts with
      | Some v -> (Some ("ok " ^ v), [])
      | None -> (Some "driver: unknown constant", []))
+  | ["decf"; wname; hex; oracle] -> forked_dec wname hex oracle impl None
+  | ["rtf"; wname; digest; k; payload; oracle] ->
+    let data = Util.bytes_of_hex digest @ Util.bytes_of_hex payload in
+    forked_dec wname (Util.hex_of_bytes data) oracle impl (Some (digest, int_of_string k, payload))
+  | ["encf"; wname; digest; k; payload] ->
+    let m = match enc_Forked (fun _ p -> p) ((b (Util.bytes_of_hex digest), n_of_util (Util.n_of_int (int_of_string k))), b (Util.bytes_of_hex payload)) with
+      | Ok x -> "ok " ^ Util.hex_of_bytes (ub x) | Err _ -> "err" | Panic -> "panic" in
+    (Some m, if starts impl "panic" then ["encoder-panics-" ^ wname] else [])
   | [kind; tname; arg] ->
     let (_, t, names) = (try find_type tname with Not_found -> failwith ("unknown type " ^ tname)) in
     (match kind with
